@@ -161,6 +161,8 @@ def select_plans(plans, tier, rng):
 # one real execution
 # ------------------------------------------------------------------------------------------------
 OTHER_ID = 65534   # nobody / nogroup
+# interleaving of caller and forked child, enforced by the tracer (the model allows every interleaving):
+SCHEDULES = ["free", "parent-first", "child-first"]
 
 
 def idval(setting, own):
@@ -265,6 +267,7 @@ def execute(job):
     cmd = [os.path.join(job["tools"], "spawntrace"), "-o", log, "-t", str(job.get("timeout_ms", 4000))]
     if inj:
         cmd += ["-i", inj]
+    cmd += ["-s", SCHEDULES[job["idx"] % 3]]
     probe = job["variant"] in ("probe", "noalloc")
     if probe:
         for o in dplan["open"]:
@@ -625,6 +628,8 @@ def run(tier):
         "combination on a base command; the other dimensions with two stdio tables); real executions cover every "
         "fault-free configuration of that space and, per (fault, predicted outcome) class, %d configurations" % (3 if tier == "quick" else 16),
         "one injected failure per run; injected failures suppress the call (close: executed, result overwritten)",
+        "caller/child interleaving: a third of the runs each free, caller-blocked-in-read-before-the-child-moves, "
+        "child-finished-before-the-caller-closes-its-write-end (enforced by the tracer)",
         "the tracer's log order is causal per task; across tasks only through system-call stops, so 'the child had "
         "exec'ed when Ok was returned' is checked as 'the child did exec' (timing is checked in the model only)",
         "std-linked `start` build: Environment::Inherit passes tiny-std's never-initialised ENV.env_p (NULL) - both "
